@@ -489,11 +489,11 @@ pub fn udp_smoke(ctx: &Ctx) -> SubResult {
             res.tally.sum("garbage_datagrams", garbage);
             res.tally.sum("probes_answered", answered);
             if answered != u64::MAX && answered > u64::MAX - 100_000 {
-                let f = Failure::new("C19/udp-malformed-answer", format!("the server answered a SYN on the real UDP transport with a datagram that is not exactly one well-formed message ({} trailing bytes; u64::MAX-1 = undecodable)", u64::MAX - 1 - answered));
+                let f = Failure::new(format!("{}/udp-malformed-answer", ctx.prop), format!("the server answered a SYN on the real UDP transport with a datagram that is not exactly one well-formed message ({} trailing bytes; u64::MAX-1 = undecodable)", u64::MAX - 1 - answered));
                 let path = write_replay(ctx, "udp-loopback-smoke", &serde_json::json!({"udp_smoke": true}), &f);
                 res.violations.push(Violation { signature: f.signature, message: f.message, replay_path: path });
             } else if answered == u64::MAX {
-                let f = Failure::new("C19/udp-garbage-terminated-loop", "after receiving only undecodable datagrams (random bytes, truncated and bit-flipped messages, 65,507-byte and empty datagrams) on the real UDP transport the gossip loop has terminated");
+                let f = Failure::new(format!("{}/udp-garbage-terminated-loop", ctx.prop), "after receiving only undecodable datagrams (random bytes, truncated and bit-flipped messages, 65,507-byte and empty datagrams) on the real UDP transport the gossip loop has terminated");
                 let path = write_replay(ctx, "udp-loopback-smoke", &serde_json::json!({"udp_smoke": true}), &f);
                 res.violations.push(Violation { signature: f.signature, message: f.message, replay_path: path });
             } else if answered == 0 {
